@@ -86,10 +86,10 @@ class FrozenChoices:
         return [v for (_, _, v) in self.log]
 
 
-def run_case(spec, seed=None, values=None):
+def run_case(spec, seed=None, values=None, force=None):
     if getattr(spec, "ISOLATE", False):
         return _run_case_forked(spec, seed, values)
-    ch = Choices(seed=seed, replay=values)
+    ch = Choices(seed=seed, replay=values if (values is not None or force is None) else [], force=force)
     out = spec.case(ch)
     return out, ch
 
@@ -144,13 +144,19 @@ def _worker(spec_name, base_seed, indices, wall_deadline, want_digests, max_keep
     res = {"n": 0, "stats": collections.Counter(), "fps": set(), "states": set(), "violations": [],
            "samples": [], "digests": {}, "truncated": False, "sim_time": 0.0, "stuck": None,
            "nviol": 0, "sigs": collections.Counter()}
+    fixed = list(spec.fixed_cases()) if hasattr(spec, "fixed_cases") else []
     for idx in indices:
         if time.time() > wall_deadline:
             res["truncated"] = True
             break
         seed = case_seed(base_seed, idx)
         try:
-            out, ch = run_case(spec, seed=seed)
+            if idx < 0:
+                # fixed (enumerated) case number -idx-1: all draws 0 except the forced ones
+                out, ch = run_case(spec, force=fixed[-idx - 1])
+                res["stats"]["fixed_cases"] += 1
+            else:
+                out, ch = run_case(spec, seed=seed)
         except KernelStuck as e:
             res["stuck"] = {"index": idx, "seed": seed, "message": str(e)}
             break
@@ -324,7 +330,9 @@ def run_check(spec, tier, base_seed, nproc=None, n_override=None):
               "nviol": 0, "sigs": collections.Counter(), "cpu_wall": 0.0}
     harness_errors = []
     with concurrent.futures.ProcessPoolExecutor(max_workers=nproc, mp_context=ctx) as ex:
-        futs = [ex.submit(_worker, spec.__name__, base_seed, list(range(i, n, nproc)), deadline, self_idx)
+        nfixed = len(list(spec.fixed_cases())) if hasattr(spec, "fixed_cases") else 0
+        all_idx = [-(j + 1) for j in range(nfixed)] + list(range(n))
+        futs = [ex.submit(_worker, spec.__name__, base_seed, all_idx[i::nproc], deadline, self_idx)
                 for i in range(nproc)]
         for fu in futs:
             try:
